@@ -603,7 +603,7 @@ class Driver:
             return [(s, s.env[node.id])]
         if node.id in ("np", "field", "math", "sys", "time"):
             return [(s, Opq("mod:" + node.id))]
-        if node.id in ("len", "min", "max", "print", "any", "all", "range", "zip", "isinstance", "float", "int", "abs", "hasattr"):
+        if node.id in ("len", "min", "max", "print", "any", "all", "range", "zip", "isinstance", "float", "int", "abs", "hasattr", "list", "tuple", "sorted", "enumerate", "dict", "str", "repr", "callable"):
             return [(s, Opq("builtin:" + node.id))]
         if node.id in func.module.assigns or node.id in func.module.functions or node.id in func.module.classes or node.id in func.module.from_imports:
             return [(s, Opq("global:" + node.id))]
@@ -1043,7 +1043,11 @@ class Driver:
             o = ListObj("results")
             s.heap["L%d" % id(o)] = o
             return [(s, o)]
-        if n in ("builtin:print", "mod:np.save", "mod:np.vstack", "builtin:zip", "builtin:range", "str.format", "builtin:isinstance"):
+        if n in ("builtin:list", "builtin:tuple") and len(args) == 1:
+            # a new list with the same elements: an untracked copy of an untracked container, opaque otherwise
+            a = args[0]
+            return [(s, list(a) if isinstance(a, (list, tuple)) else Opq("listcopy"))]
+        if n in ("builtin:print", "mod:np.save", "mod:np.vstack", "builtin:zip", "builtin:range", "str.format", "builtin:isinstance", "builtin:sorted", "builtin:enumerate", "builtin:dict", "builtin:str", "builtin:repr", "builtin:callable"):
             return [(s, Opq("void"))]
         if n in ("builtin:any", "builtin:all"):
             return [(s, CBool("%s()" % n[8:]))]
